@@ -272,6 +272,44 @@ def explain(I, r):
     return None
 
 
+def covered(r):
+    """the hypothesis `Covered` of theorem C12_kept_reproduces_scored, evaluated on the raw optimiser outcome"""
+    raw = getattr(r, "_verif_x_raw", None)
+    ids = getattr(r, "_verif_coef_id_raw", None)
+    if raw is None or ids is None:
+        return False
+    key = KEY_OF.get(tuple(ids))
+    x = [float(v) for v in raw]
+    Tmin, Tmax, Tmins, Tmaxs = float(r.T_min), float(r.T_max), float(r.T_min_seg), float(r.T_max_seg)
+    if not (Tmin < Tmins <= Tmaxs < Tmax):
+        return False
+    if key == "hdd_tidd_cdd_smooth":
+        hb, bh, pkh, cb, bc, pkc, _ = x
+        if not (Tmins <= hb <= cb <= Tmaxs and pkh >= 0 and pkc >= 0):
+            return False
+        if bh > 0 and bc > 0:
+            return True
+        if bh > 0 and bc == 0 and pkc == 0:
+            return hb < Tmaxs and Tmins < cb
+        if bh == 0 and pkh == 0 and bc > 0:
+            return hb < Tmaxs and Tmins < cb
+        return bh == 0 and bc == 0 and Tmax > 0
+    if key == "hdd_tidd_cdd":
+        hb, bh, cb, bc, _ = x
+        if not (Tmins <= hb <= cb <= Tmaxs and bh >= 0 and bc >= 0):
+            return False
+        return (bh > 0 or bc > 0) or Tmax > 0
+    if key == "c_hdd_tidd_smooth":
+        bp, b, k, _ = x
+        return Tmins <= bp <= Tmaxs and k >= 0 and (b != 0 or Tmax > 0)
+    if key == "c_hdd_tidd":
+        bp, b, _ = x
+        return Tmins <= bp <= Tmaxs and (b != 0 or Tmax > 0)
+    if key == "tidd":
+        return Tmax > 0
+    return False
+
+
 def in_box(r):
     raw, b = getattr(r, "_verif_x_raw", None), getattr(r, "_verif_bnds_raw", None)
     if raw is None or b is None or len(raw) != len(b):
@@ -404,7 +442,11 @@ def check_result(I, res, sigs, where, r, case, lines, metas, **kw):
            (bool(raw[0] > raw[3 if key.endswith("smooth") else 2]), bool(raw[0] == r.T_min_seg), bool(raw[0] == r.T_max_seg)))
     sigs.add(sig)
     res["hist"][f"{where.split('[')[0]}:{key}->{r.model_key}"] = res["hist"].get(f"{where.split('[')[0]}:{key}->{r.model_key}", 0) + 1
-    fid = explain(I, r) if fails and {c for c, _ in fails} == {"kept_reproduces_scored"} else None
+    cov = covered(r)
+    res["hist"]["theorem_C12_kept_reproduces_scored_covers" if cov else "outside_the_theorem(findings_or_boundary)"] = \
+        res["hist"].get("theorem_C12_kept_reproduces_scored_covers" if cov else "outside_the_theorem(findings_or_boundary)", 0) + 1
+    # inside the theorem's hypothesis a mismatch is never attributed to a finding
+    fid = explain(I, r) if (fails and not cov and {c for c, _ in fails} == {"kept_reproduces_scored"}) else None
     if fid is not None:
         d = res["finding_instances"].setdefault(fid, dict(count=0, example=None))
         d["count"] += 1
@@ -420,6 +462,12 @@ def check_result(I, res, sigs, where, r, case, lines, metas, **kw):
     if raw is not None and key is not None:
         lines.append(refine_line(key, [r.T_min, r.T_max, r.T_min_seg, r.T_max_seg], raw))
         metas.append((where, case, r))
+        # the scoring path: what the objective evaluated at (a sample of) the fitted temperatures
+        T = np.asarray(r.T, dtype=float)
+        pick = sorted(set([0, len(T) // 3, len(T) // 2, len(T) - 1, int(np.argmin(T)), int(np.argmax(T))]))
+        lines.append(" ".join(["scored", key, fhex(float(T.min())), fhex(float(T.max())), str(len(raw))] + [fhex(float(v)) for v in raw]
+                              + [fhex(float(T[i])) for i in pick]))
+        metas.append((where, case, ("scored", r, pick)))
 
 
 def run(ctx):
@@ -480,6 +528,22 @@ def run(ctx):
         outs = core.run_driver(lines)
         for out, (where, case, r) in zip(outs, metas):
             res["traces"] += 1
+            if isinstance(r, tuple):
+                _, rr, pick = r
+                cells = out[3:].split(" ") if out.startswith("ok ") else []
+                want = [float(np.asarray(rr.model, dtype=float)[i]) for i in pick]
+                bad = None
+                if len(cells) != len(want):
+                    bad = dict(model_out=out[:200])
+                else:
+                    for cnum, w in zip(cells, want):
+                        if cnum == "err" or not (fhex(w) == cnum or unhex(cnum) == w or close(unhex(cnum), w, 1e-11) or (math.isnan(w) and math.isnan(unhex(cnum)))):
+                            bad = dict(lean=None if cnum == "err" else unhex(cnum), impl=w)
+                            break
+                if bad:
+                    small = case if where != "synthetic" else dict(key=case["key"], raw=case["raw"])
+                    res["disagreements"].append(dict(op="scored", where=where, case=small, raw=[float(v) for v in rr._verif_x_raw], **bad))
+                continue
             d = compare_refine(out, r)
             if d is not None:
                 small = case if where != "synthetic" else dict(key=case["key"], raw=case["raw"])
@@ -520,16 +584,18 @@ def replay(obj):
     return _replay_case(obj)
 
 
-LEVEL_TEXT = ("Lean 4 theorems over R about what happens downstream of the optimiser: reduce_model (hand model, all fuel) returns only "
-              "layouts whose declared slopes are non-zero and terminates after at most one self-call; ModelCoefficients.from_np_arrays "
-              "(hand model) stores ordered balance points, a type that agrees with the present fields, single-slope signs by type, a record "
-              "that is always evaluable, round-trips an ordered vector, and obeys the sign conventions under which C11's curve theorems "
-              "apply. Both hand models, composed with the regenerated get_full_model_x, are compared bit for bit with the real "
-              "OptimizedResult constructor on synthetic and real optimiser outcomes.")
-LEVEL_NOTE = ("'The optimiser returns a finite point inside its box' and 'kept coefficients reproduce the scored curve' are NOT theorems: "
-              "they are evaluated on the implementation for every OptimizedResult of real fits and for synthetic outcomes (oracle). "
-              "Trusted: Lean kernel + propext/Classical.choice/Quot.sound; py2lean; hand models of reduce_model/get_k/from_np_arrays "
-              "(validated by T2 only); NLopt, numba and numpy are outside the model.")
+LEVEL_TEXT = ("Lean 4 theorems over R about what happens downstream of the optimiser: for every covered optimiser outcome (all five coefficient "
+              "layouts, every reduction _refine_model makes, every temperature) the stored record is evaluable and _predict_submodel of it returns "
+              "exactly the value the objective scored (C12_kept_reproduces_scored; generated kernels + hand models of reduce_model / get_k / "
+              "from_np_arrays / the scoring wrappers); reduce_model returns only layouts whose declared slopes are non-zero and terminates after one "
+              "self-call; from_np_arrays stores ordered balance points, a type that agrees with the present fields, single-slope signs by type, an "
+              "evaluable record, round-trips an ordered vector and obeys C11's sign conventions. The hand models, composed with the regenerated "
+              "kernels, are compared bit for bit with the real OptimizedResult constructor and the real scoring functions.")
+LEVEL_NOTE = ("'The optimiser returns a finite point inside its box', base load / uncertainty ranges and recorded limits are NOT theorems: they are "
+              "evaluated on every OptimizedResult of real fits and on synthetic outcomes (oracle). Outside the theorem's hypothesis `Covered` lie "
+              "the three listed findings (C12-F1/F2/F3) and boundary cases (crossed balance points without smoothing, balance points on the ends "
+              "of the observed range): decided by running the real code; the evidence histogram counts both kinds. Trusted: Lean kernel + "
+              "propext/Classical.choice/Quot.sound; py2lean; hand models (validated by T2 only); NLopt, numba and numpy are outside the model.")
 TECHNIQUE = "Lean 4 proof (case analysis/induction over the refinement pipeline) + differential correspondence on real optimiser outcomes"
 ASSUMPTIONS = ["the optimiser returns a finite vector inside the box it was given (observed on every real fit through the hook, not proved)",
                "kept-reproduces-scored and base-load/uncertainty clauses are decided by the oracle on sampled datasets, not by a theorem",
